@@ -7,6 +7,7 @@ run_passes() with per-operand RW info).  The driver
        `valid pre=<n> post=<n> pairs=<n> ins=<n> del=<n>`  |  `reject <where> <why>`  |  `unsupported <why>`.
 -/
 import AsmjitVerif.Model.RAIR
+import AsmjitVerif.Gen.VexEvex
 import Driver.Common
 
 namespace Driver.C05
@@ -190,11 +191,11 @@ def moveCap (n : String) : Nat :=
 /-- instruction names the rewriter may substitute (x86rapass.cpp rewrite(): reg->mem patched forms, VEX->EVEX) -/
 def nameEquiv (pre post : String) : Bool :=
   pre == post ||
-  [("movd", "mov"), ("vmovd", "mov"), ("kmovd", "mov"), ("movq", "mov"), ("vmovq", "mov"), ("kmovq", "mov"), ("kmovb", "movzx"), ("kmovw", "movzx"), ("vmovw", "movzx"),
-   ("vbroadcastf128", "vbroadcastf32x4"), ("vbroadcasti128", "vbroadcasti32x4"), ("vextractf128", "vextractf32x4"), ("vextracti128", "vextracti32x4"),
-   ("vinsertf128", "vinsertf32x4"), ("vinserti128", "vinserti32x4"), ("vmovdqa", "vmovdqa32"), ("vmovdqu", "vmovdqu32"), ("vpand", "vpandd"),
-   ("vpandn", "vpandnd"), ("vpor", "vpord"), ("vpxor", "vpxord"), ("vroundpd", "vrndscalepd"), ("vroundps", "vrndscaleps"),
-   ("vroundsd", "vrndscalesd"), ("vroundss", "vrndscaless")].contains (pre, post)
+  -- register-to-memory patched forms of X86RAPass::rewrite(): a GP load of the home slot instead of a cross-file move
+  [("movd", "mov"), ("vmovd", "mov"), ("kmovd", "mov"), ("movq", "mov"), ("vmovq", "mov"), ("kmovq", "mov"), ("kmovb", "movzx"), ("kmovw", "movzx"),
+   ("vmovw", "movzx")].contains (pre, post) ||
+  -- VEX -> EVEX renaming: only a pair the ISA database lists as the same operation (Gen/VexEvex.lean, regenerated on every run)
+  AsmjitVerif.Gen.vexEvexPairs.contains (pre, post)
 
 /-- instructions whose result does not depend on the operands when all register operands are the same register -/
 def sameRegZero (n : String) : Bool :=
